@@ -27,7 +27,7 @@ def demo():
         s = scripts[0]
         rc, out = sh("cargo build --offline -q 2>&1 | tail -3; %s demo/%s" % ("sh" if s.endswith(".sh") else "python3", s), wt)
         return rc, out, "cargo build --offline && run demo/" + s
-    if os.path.isdir(os.path.join(d, "tests")):
+    if os.path.isdir(os.path.join(d, "tests")) or (os.path.exists(os.path.join(d, "src", "lib.rs")) and not os.path.exists(os.path.join(d, "src", "main.rs"))):
         rc, out = sh("cargo test --offline 2>&1", d)
         return rc, out, "cd demo && cargo test --offline"
     rc, out = sh("cargo run --offline 2>&1", d)
